@@ -96,8 +96,10 @@ Init ==
     /\ units = <<>>
     /\ CASE Mode = "design" -> stream = <<>> /\ align = 0
          [] Mode = "windows" -> /\ align \in Aligns
-                                /\ \E win \in [1 .. WinLen -> Alphabet], tot \in Totals :
-                                      stream = Fill(align) \o win \o Fill(tot - align - WinLen)
+                                /\ \E win \in [1 .. WinLen -> Alphabet] :
+                                      \/ \E tot \in Totals : stream = Fill(align) \o win \o Fill(tot - align - WinLen)
+                                      \* the window at the very END of the stream (trailing zeros, truncated start codes), every length mod the word size
+                                      \/ stream = Fill(align + (IF align < 8 THEN 3 ELSE 11)) \o win
          [] Mode = "units" -> stream = <<>> /\ align = 0
 
 Grow == /\ Mode = "design" /\ Len(stream) < MaxLen
